@@ -715,6 +715,47 @@ theorem C12_audit_id {κ α : Type} (B : List Hit → κ) (S : List Hit → List
       obtain ⟨s2, h2⟩ := applyAcl_audit frames none r.hits
       simp [ask, h1, h2]
 
+/-! ### The defect repaired by `fixes/C12.diff`
+
+Before the repair `Memvid::search` (and likewise `vec_search_with_embedding_acl`) looked at the ACL
+fields only inside `apply_acl_to_search_hits`, i.e. after its early returns.  With that order the
+second clause of the property is false: -/
+
+/-- `Memvid::search` as it was before the repair: no up-front check -/
+def searchBeforeFix {κ : Type} (B : List Hit → κ) (frames : Frames) (mode : Mode) (ctx : Option Ctx)
+    (pre : PreSearch κ) : Except Err (Response κ) :=
+  match pre with
+  | .disabled => .error .other
+  | .failed => .error .other
+  | .early => .ok { hits := [], totalHits := 0, context := B [] }
+  | .engine r =>
+    match applyAcl frames mode ctx r.hits with
+    | .error e => .error e
+    | .ok (hits, _) =>
+      match mode with
+      | .enforce => .ok { hits, totalHits := hits.length, context := B hits }
+      | .audit => .ok { r with hits }
+
+/-- witness: Enforce, no caller context at all, a request whose replay window matches no frame -/
+theorem C12_before_fix_counterexample :
+    ¬ (∀ (ctx : Option Ctx) (pre : PreSearch Unit), normalizeCtx ctx = none →
+        ∃ e, searchBeforeFix (fun _ => ()) (fun _ => none) .enforce ctx pre = .error e) := by
+  intro h
+  obtain ⟨e, he⟩ := h none .early rfl
+  simp [searchBeforeFix] at he
+
+/-- the repair changes nothing for requests that pass the up-front check -/
+theorem search_eq_before_fix {κ : Type} (B : List Hit → κ) (frames : Frames) (mode : Mode) (ctx : Option Ctx)
+    (pre : PreSearch κ) (hok : validateRequest mode ctx = .ok ()) (hpre : pre ≠ .failed) :
+    search B frames mode ctx pre = searchBeforeFix B frames mode ctx pre := by
+  cases pre with
+  | disabled => rfl
+  | failed => exact absurd rfl hpre
+  | early => simp [search, searchBeforeFix, hok]
+  | engine r =>
+    simp only [search, searchBeforeFix, hok]
+    cases applyAcl frames mode ctx r.hits <;> rfl
+
 /-! ### Character tables and stats -/
 
 /-- `isWs` is false above U+3000 (so a comparison with `char::is_whitespace` below U+3100 is exhaustive) -/
